@@ -86,6 +86,8 @@ def run_case(case, chooser=None):
         argv.append('--no-cookies')
     if case.get('proxy'):
         argv += ['--http-proxy', 'proxy.test:3128']
+    if case.get('post'):
+        argv += ['--post-data', case['post']]
     site = site_hosts()
     out = AppRun(site, argv, chooser or Chooser(), strategy=strategy, early=False).run()
     return out
@@ -167,6 +169,8 @@ def judge(case, out):
         return 'no termination: %s' % out['result']
     if out['exc']:
         return 'application raised %s' % out['exc']
+    if out.get('exit') == 1:
+        return 'the crawl crashed (exit status 1)'
     reqs = out['requests']
     try:
         cur = URLInfo.parse(case['start']).url
@@ -194,6 +198,14 @@ def judge(case, out):
                 return '%s: malformed header line %r' % (where, ln[:100])
             names.append(ln.split(':', 1)[0].lower())
         # --- semantics --------------------------------------------------------------
+        if case.get('post'):
+            # the request that carries the form data is replayed by 307/308 only
+            replayed = all(c in (307, 308) for c, _ in plan[:k])
+            want_method = 'POST' if replayed else 'GET'
+            if m.group(1) != want_method:
+                return '%s: method %s, expected %s' % (where, m.group(1), want_method)
+            if want_method == 'POST' and q.get('body') != case['post']:
+                return '%s: request body %r, expected %r' % (where, q.get('body'), case['post'])
         scheme, host, port, target, hwp = expected_parts(cur)
         if case.get('proxy'):
             # absolute-form: the hop's normalised URL (with or without its user-info: RFC 7230
@@ -311,6 +323,13 @@ def cases(tier):
     for u in START_URLS:
         lib.append(dict(start=u, chain=[], cookies=False, lib=True))
     out += lib + px
+    # a request with a body (--post-data): replayed with its body by 307/308, turned into a
+    # GET by the other codes
+    for n in (1, 2):
+        for codes in itertools.product(CODES, repeat=n):
+            chain = [(c, hop_url(['same', 'other'][i % 2], i + 1)) for i, c in enumerate(codes)]
+            out.append(dict(start='http://a.test/form', chain=chain, cookies=False,
+                            post='a=b&c=d'))
     for loc in LOCATIONS:
         for code in CODES:
             out.append(dict(start='http://a.test/s', chain=[(code, loc)], cookies=True))
@@ -492,7 +511,7 @@ def run_job(job):
         shape = (len(case['chain']), tuple(c for c, _ in case['chain']),
                  tuple(re.sub(r'/h\d+$', '', l) for _, l in case['chain']), case['cookies'],
                  case['start'], bool(case.get('challenge')), bool(case.get('lib')),
-                 bool(case.get('proxy')))
+                 bool(case.get('proxy')), case.get('post'))
         res['distinct'].add(h64(shape))
         key = 'reqs=%d %s' % (len(out['requests']), 'ok' if not v else 'bad')
         res['outcomes'][key] = res['outcomes'].get(key, 0) + 1
